@@ -50,7 +50,7 @@ def _strategy(op_choices):
             op = draw(st.sampled_from(op_choices))
             kappa = draw(st.sampled_from([10.0, 100.0]))
             case = {"D": D, "R1": R1, "R2": R2, "N": N, "mkind": mkind, "cache": cache, "op": op,
-                    "m": draw(gen.measure_params(mkind, R1, D, kappa, extreme=True)),
+                    "m": draw(gen.measure_params(mkind, R1, D, kappa, extreme=True, hetero=True)),
                     "x": draw(gen.arr((N, D), -3, 3))}
             if op != "product":
                 fkind = draw(st.sampled_from(gen.FACTOR_KINDS))
